@@ -33,6 +33,8 @@ type c14Amino struct {
 }
 
 func runC14(r *core.Run) {
+	defer racePass(r, "race-sequtil", "ReverseComplement(String), DNATo2Bit/From2Bit, Translate(ReadingFrames), CanonicalSubsequences, AminoName on one shared src")
+
 	core.Clause(r, "codon-table", core.Opts{Rule: "all 64 codons x all 8 upper/lower case patterns against the NCBI table-1 string; non-trivial = all"},
 		func(emit func(c14Codon) bool) {
 			enum.StringsLen("TCAG", 3, func(s string) bool {
@@ -136,6 +138,49 @@ func runC14(r *core.Run) {
 				}
 				if !bytes.Equal(got, want) {
 					return core.Failf("Translate(%q) = %q, want %q", src, got, want)
+				}
+				return core.OK("accepted", true)
+			}
+			if p == "" {
+				return core.Failf("Translate(%q) did not panic (returned %q)", src, got)
+			}
+			return core.OK("panics", true)
+		})
+
+	special := []byte{'A', 'C', 'G', 'T', 'a', 'c', 'g', 't', 0x00, 0x01, ' ', '-', 'N', 'n', 'U', 'u', '@', '[', '`', '{', 0x7f, 0x80, 0xc1, 0xe1, 0xff, '*', 'R', 'X', '0', '\n', '.', '?'}
+	r.Bound("codon-space", fmt.Sprintf("every codon over %d selected bytes (the 8 bases and 24 invalid ones incl. 0x00, N, U, 0x80.., 0xff) = %d codons, as the only codon, as the first of two and as the second of two%s", len(special), len(special)*len(special)*len(special), core.Pick(r, "", "; thorough: ALL 256^3 codons as the only codon")))
+	core.Clause(r, "codon-space", core.Opts{Rule: "whole codons, not single positions: Translate panics iff some byte of the codon is outside aAcCgGtT, else gives the reference amino acid; also with a valid codon before or after it; non-trivial = all"},
+		func(emit func(c14Bad) bool) {
+			for _, a := range special {
+				for _, b := range special {
+					for _, c := range special {
+						cod := string([]byte{a, b, c})
+						if !emit(c14Bad{core.S(cod)}) || !emit(c14Bad{core.S(cod + "ATG")}) || !emit(c14Bad{core.S("ATG" + cod)}) {
+							return
+						}
+					}
+				}
+			}
+			if r.Thorough() {
+				for a := 0; a < 256; a++ {
+					for b := 0; b < 256; b++ {
+						for c := 0; c < 256; c++ {
+							if !emit(c14Bad{core.S([]byte{byte(a), byte(b), byte(c)})}) {
+								return
+							}
+						}
+					}
+				}
+			}
+		},
+		func(c c14Bad) core.Outcome {
+			src := c.Seq.B()
+			want, ok := ref.Translate(src)
+			var got []byte
+			p := catch(func() { got = sequtil.Translate(nil, src) })
+			if ok {
+				if p != "" || !bytes.Equal(got, want) {
+					return core.Failf("Translate(%q) = %q (panic %q), want %q", src, got, p, want)
 				}
 				return core.OK("accepted", true)
 			}
